@@ -201,6 +201,20 @@ func runC12(c *ShardCtx) {
 			}
 		}
 	}
+	// cross family (cross.go): every construct (blocks that report no error among them) under the
+	// flag sets that leave the terminals as written (-optimize-grammar joins terminals)
+	{
+		var gens8 []core.Gen
+		for _, gn := range gens16 {
+			if !gn.OptGrammar {
+				gens8 = append(gens8, gn)
+			}
+		}
+		if !runCross(c, &idx, &crossSpec{maxSize: 3, gens: gens8, inputs: crossInputs, opts: []rtapi.RunOpts{{MaxExpr: 600, Filename: "in.txt"}}, scripts: crossPredScripts, nontrivial: nontriv,
+			cmp: core.CmpOpts{SkipLog: true}}) {
+			return
+		}
+	}
 	// second family: two rules with display name, deeper predicate nesting
 	en2 := peg.NewEnumerator(peg.Alphabet{Leaves: []*peg.Expr{peg.Lit("a"), peg.Any(), peg.Ref("A")}, Unary: []peg.Kind{peg.KNot, peg.KAnd, peg.KStar}, Seq: true, Choice: true})
 	for _, body := range en2.UpTo(n) {
